@@ -76,6 +76,17 @@ CLAIMED['C17'] = dict(
   note='Known finding: EADDRNOTAVAIL on exhaustion of 16..31 (asserted by the pinned suite). Two defects repaired (name never released; '
        'well-known bind overwrote an occupied address).',
   technique='CFG dominance/reachability + constant-table agreement (ast)')
+CLAIMED['C19'] = dict(
+  category='other',
+  text='Decides provenance and table agreement of the negotiated limits from the source: def-use shows the LLCP sending limits and the NFC-DEP '
+       'payload limits are taken from the decode of what the peer announced (never from local options) and that our announcements take the '
+       'local options, omitted exactly for the decode defaults; the LR/BRS/bit-rate tables, PP/PPI bit positions, clamps, WT mask and RWT '
+       'formulas are evaluated by the checker over the whole option grid on the extracted expressions; option pass-through from connect() '
+       'and the LLC constructor is enumerated; the NFC-DEP payload budget equals LR minus the symbolic overhead of the DEP PDU encoder '
+       'including the DID/NAD bytes a role can use. Agreement of two live stacks over the grid is not decided.',
+  design_ref='DESIGN.md section 3 C19',
+  note='Trusted: NFC-DEP LR semantics (transport data field), LLCP parameter defaults. One defect repaired (Target ignored the DID byte).',
+  technique='def-use provenance + finite evaluation of extracted table expressions + symbolic length (ast)')
 NA_REASON = {}
 def main():
     checks = []
